@@ -402,6 +402,9 @@ func c07(c *wk.Ctx) {
 		}
 		r.Violationf(fmt.Sprintf("C07|mode=%s|outcome=process-aborted", cs.Mode), json.RawMessage(d.Desc), "full sync / restore ended the process (exit %d) without an injected failure: %s", d.Result.Exit, firstPanicLine(d.Result.Stderr))
 	}
+	if wk.ReplayOne(c, "c07runs", nil, onDeath) {
+		return
+	}
 	n := c.N(144, 2400)
 	parts := 12
 	nch := c.N(1, 3)
